@@ -315,13 +315,16 @@ pub fn cmd_version09(a: &Args) {
 		let (maj, min) = ((mm >> 8) as u8, (mm & 255) as u8);
 		// a zero-frame game whose columns match the version's layout: read a file of that version
 		// (at or below the ceiling), or of the ceiling's layout with the version overwritten (above it)
-		let base_ver = if (maj, min) <= (max[0], max[1]) && (maj, min) != (0, 0) { [maj, min, 0] } else if (maj, min) == (0, 0) { [0, 1, 0] } else { [max[0], max[1], 0] };
+		// (every 16th version at or below the ceiling: a game of the ceiling's layout WITH Gecko codes, relabelled: whatever
+		// else the writers make of it, they do not refuse it for its version)
+		let relabelled = (maj, min) <= (max[0], max[1]) && mm % 16 == 11;
+		let base_ver = if relabelled { [max[0], max[1], 0] } else if (maj, min) <= (max[0], max[1]) && (maj, min) != (0, 0) { [maj, min, 0] } else if (maj, min) == (0, 0) { [0, 1, 0] } else { [max[0], max[1], 0] };
 		let reg = db.regime_of(base_ver[0], base_ver[1]);
 		// mostly zero-frame games; every 16th (major, minor) a game with frames, so that a guard which depends on
 		// the frame count is seen too (a writer that gets past the guard on a newer version may then panic on the
 		// columns: that is reported as well)
 		let nframes = if mm % 16 == 5 { 2 } else { 0 };
-		let mut beh = simple_beh(reg, &["single", "none", "ic", "none"], nframes, 0);
+		let mut beh = if relabelled { crate::fields::simple_beh_gecko(reg, &["single", "none", "ic", "none"], 0, 0, 1) } else { simple_beh(reg, &["single", "none", "ic", "none"], nframes, 0) };
 		// every 8th (major, minor): a game without a Game End (a replay cut short), every 16th one without metadata
 		if mm % 8 == 3 {
 			beh.file_end = "none".into();
